@@ -172,7 +172,7 @@ def install(seed, max_steps=3000000, max_virtual=3000.0):
         for _name, _role in (('_keep_order', 'keep_order'), ('_exception_thrown', 'exception_thrown'), ('_kill_signal_received', 'kill_signal_received'),
                              ('_worker_restart_condition', 'restart_condition'), ('exception_lock', 'exception_lock')):
             try:
-                getattr(self, _name).role = _role
+                getattr(self, _name).role = getattr(sim.S, 'role_prefix', '') + _role
             except Exception:  # noqa
                 pass
 
@@ -183,8 +183,9 @@ def install(seed, max_steps=3000000, max_virtual=3000.0):
     def reinit_comms_for_worker(self, worker_id):
         orig_reinit(self, worker_id)
         try:
-            self._worker_running_task[worker_id].role = f'running_task[{worker_id}]'
-            self._worker_running_task[worker_id].get_lock().role = f'running_task_lock[{worker_id}]'
+            pre = getattr(sim.S, 'role_prefix', '')
+            self._worker_running_task[worker_id].role = f'{pre}running_task[{worker_id}]'
+            self._worker_running_task[worker_id].get_lock().role = f'{pre}running_task_lock[{worker_id}]'
         except Exception:  # noqa
             pass
 
@@ -218,7 +219,7 @@ def install(seed, max_steps=3000000, max_virtual=3000.0):
             evs = [(n, v) for n, v in vars(self).items() if isinstance(v, sim.Event)]
             named = [v for n, v in evs if 'stop' in n]
             for v in (named or ([evs[0][1]] if len(evs) == 1 else [])):
-                v.role = 'hstop'
+                v.role = getattr(sim.S, 'role_prefix', '') + 'hstop'
         except Exception:  # noqa
             pass
 
@@ -272,7 +273,7 @@ def tag_comms(c):
 
     def tag(x, role):
         try:
-            x.role = role
+            x.role = getattr(sim.S, 'role_prefix', '') + role       # a second pool's objects carry a prefix
             return True
         except Exception:  # noqa
             return False
